@@ -191,6 +191,7 @@ var loopTable = map[string]internalPanic{
 	"(*lib/stringlib/pattern.patternBuilder).getUnion":   {1, "every iteration consumes at least one byte of the pattern through pb.next(); bounded by len(pattern), which is held"},
 	"(*lib/stringlib/pattern.patternMatcher).match":      {1, "every iteration consumes budget (matchNext/getNext returned true), or advances pi (bounded by len(items)), or pops/decrements a trackback entry whose creation consumed budget (amortised: trackbacks <= budget consumed)"},
 	"(*lib/stringlib/pattern.patternMatcher).matchToEnd": {1, "every iteration ends in trackback(), which pops or decrements a trackback entry whose creation consumed budget"},
+	"(*runtime.runtimeContextManager).ReleaseMem":        {1, "walks up the context chain (m.parent) and stops at the first context that can absorb the release or at the root: one link per pushed context, each of which is a live CallContext activation (bounded by the call-depth guards) or, through the known R-CTXSTACK hole, a suspended coroutine holding at least 2 KiB of charged memory"},
 	"(*runtime.Error).AddContext":                        {2, "both loops walk up the continuation chain (c.Parent()) and stop at its end: bounded by the chain, which is held memory (the depth counter only makes them stop earlier)"},
 	"lib/debuglib.getinfo":                               {1, "walks up the continuation chain (cont.Parent()) and stops at its end: bounded by the chain, which is held memory (the level argument only makes it stop earlier)"},
 	"lib/debuglib.traceback":                             {1, "walks down the continuation chain (cont.Next()) and stops at its end: bounded by the chain, which is held memory (the level argument only makes it stop earlier)"},
